@@ -328,7 +328,7 @@ def find_item(src, kind, name):
 # --------------------------------------------------------------------------------------
 # Rewrite rules
 # --------------------------------------------------------------------------------------
-TRACE_MACROS = {"trace", "debug", "info", "warn", "error", "println", "eprintln"}
+TRACE_MACROS = {"trace", "debug", "info", "warn", "error", "println", "eprintln", "debug_assert"}  # debug_assert!: compiled out of release builds
 SIDE_EFFECT_RE = re.compile(r"\.await|\.push\(|\.insert\(|\.send\(|\.remove\(|\.pop|\+=|-=|\.take\(|\.swap\(|\.store\(|\.fetch_")
 
 
